@@ -232,6 +232,8 @@ def clause_envmodes(cases, ctx: Ctx):
         if not tree_bits_equal(r1[:2], r2[:2]):
             out.append((ci, "C12/envmodes/reset-not-deterministic", f"{desc}: reset with the same key gave different results"))
         ctx.states += len(triples)
+        if heavy:
+            jax.clear_caches()  # MJX / G1 executables are large: keep the worker's memory bounded
     return out
 
 
@@ -389,7 +391,7 @@ def explore(ctx: Ctx):
     import time as _time
 
     t0 = _time.time()
-    ctx.run_parallel("envmodes", envc, workers=8, group_key=lambda c: c["env"], threads=2)
+    ctx.run_parallel("envmodes", envc, workers=4 if thorough else 8, group_key=lambda c: c["env"], threads=4 if thorough else 2)
     ctx.notes["wall_envmodes_s"] = round(_time.time() - t0, 1)
     # (b)
     diff = []
